@@ -73,3 +73,63 @@ Definition dicke_probs_eqb (n k : Z) (support : list Z) (count : positive) : boo
                       (map (fun i => if memZ i support then (1 # count)%Q else 0%Q) (zrange 0 (Z.to_nat (2 ^ n))))
   | _ => false
   end.
+
+(* ---- several objects built by the same constructor call; each object is an independent value of the model.
+   [None] in an object's operation list = a step of the history that does not touch this object (another object is
+   assigned to, or another object is constructed): its snapshot must stay what it was. *)
+Inductive source :=
+| SrcList (col : bool) (v : list amp)                              (* Wavefunction(v), zero_state *)
+| SrcBind (col : bool) (v : list amp) (m : list (positive * amp))  (* Wavefunction(v).bind(m) *)
+| SrcLoad (col : bool) (v : list amp)                              (* load(file saved from Wavefunction(v)) *)
+| SrcDicke (n k : Z) (v : list amp).                               (* dicke_state(n,k); v = the amplitudes it holds *)
+
+Definition amp_is_zero (a : amp) : bool :=
+  match a with Num r i => Qeq_bool r 0 && Qeq_bool i 0 | Symb _ => false end.
+Fixpoint support_from (i : Z) (v : list amp) : list Z :=
+  match v with
+  | [] => []
+  | a :: r => if amp_is_zero a then support_from (i + 1)%Z r else i :: support_from (i + 1)%Z r
+  end.
+Definition uniform_nonzero (v : list amp) : bool :=
+  match filter (fun a => negb (amp_is_zero a)) v with
+  | [] => false
+  | a :: r => forallb (amp_eqb a) r
+  end.
+
+Definition src_create (tol : Q) (src : source) : option state :=
+  match src with
+  | SrcList col v => create tol col v
+  | SrcBind col v m =>
+      match create tol col v with
+      | Some s => match bind tol s m with (s', Ok, _) => Some s' | _ => None end
+      | None => None
+      end
+  | SrcLoad col v =>
+      match create tol col v with
+      | Some s => match save s with Some d => load tol d | None => None end
+      | None => None
+      end
+  | SrcDicke n k v =>       (* the model's Dicke support, one common amplitude on it, zero elsewhere, normalised *)
+      match dicke_indices n k with
+      | DIdx idx => if lzeqb (support_from 0 v) idx && uniform_nonzero v
+                       && Nat.eqb (length v) (Z.to_nat (2 ^ n)) then create tol false v else None
+      | _ => None
+      end
+  end.
+
+Fixpoint otrace (tol : Q) (s : state) (ops : list (option op)) : list (outcome * state) :=
+  match ops with
+  | [] => []
+  | None :: r => (Ok, s) :: otrace tol s r
+  | Some o :: r => let '(s', res) := step tol s o in (res, s') :: otrace tol s' r
+  end.
+
+Definition object_eqb (o : source * list (option op) * option state * list (outcome * state)) : bool :=
+  let '(src, ops, exp_create, exp) := o in
+  match src_create np_tol src, exp_create with
+  | None, None => match exp with [] => true | _ => false end
+  | Some s, Some e => state_eqb s e && leqb (peqb outcome_eqb state_eqb) (otrace np_tol s ops) exp
+  | _, _ => false
+  end.
+Definition multi_eqb (objs : list (source * list (option op) * option state * list (outcome * state))) : bool :=
+  forallb object_eqb objs.
